@@ -430,7 +430,9 @@ mod probes {
     }
     fn own_op<S: bump_scope::settings::BumpAllocatorSettings>(via: u64, b: &Bump<Global, S>, q: Req) -> Result<core::ptr::NonNull<[u8]>, ()>
     where Global: bump_scope::BaseAllocator<S::GuaranteedAllocated> {
-        match via { 2 => run_own(&bump_scope::WithoutDealloc(b), q), 3 => run_own(&bump_scope::WithoutShrink(b), q), 1 => run_own(b.as_scope(), q), _ => run_own(b, q) }
+        // 4 / 5: the blanket impls of the crate's Allocator trait for `&A` and `&mut A` (src/alloc.rs)
+        match via { 2 => run_own(&bump_scope::WithoutDealloc(b), q), 3 => run_own(&bump_scope::WithoutShrink(b), q), 1 => run_own(b.as_scope(), q),
+                    4 => run_own(&b, q), 5 => { let mut r = b; run_own(&&mut r, q) } _ => run_own(b, q) }
     }
     fn foreign_op<S: bump_scope::settings::BumpAllocatorSettings>(via: u64, b: &Bump<Global, S>, q: Req) -> Result<core::ptr::NonNull<[u8]>, ()>
     where Global: bump_scope::BaseAllocator<S::GuaranteedAllocated> {
@@ -442,8 +444,8 @@ mod probes {
             use core::ptr::NonNull;
             type B = Bump<Global, BumpSettings<$ma, $up>>;
             let tag = format!("MIN_ALIGN={} UP={}", $ma, $up);
-            let via = $r.below(4);     // which implementor carries the foreign-trait calls
-            let via_name = ["Bump", "BumpScope", "WithoutDealloc<&Bump>", "WithoutShrink<&Bump>"][via as usize];
+            let via = $r.below(6);     // which implementor carries the calls (4 / 5: references, own trait only; the other arena is driven directly)
+            let via_name = ["Bump", "BumpScope", "WithoutDealloc<&Bump>", "WithoutShrink<&Bump>", "&Bump", "&mut &Bump"][via as usize];
             let b1: B = Bump::with_size(256);
             let b2: B = Bump::with_size(256);
             let off = |b: &B, p: usize| -> (usize, usize) {
